@@ -1583,9 +1583,14 @@ def _select_reader_conditional_branch(
             return _resolve_tagged_literal(ctx, form.tag, resolved)
         return form
 
-    return _postwalk(
-        resolve_tagged_literals, reader_cond.select_feature(ctx.reader_features)
-    )
+    try:
+        return _postwalk(
+            resolve_tagged_literals, reader_cond.select_feature(ctx.reader_features)
+        )
+    except TypeError as e:
+        # Sets and maps are rebuilt once their tagged literals have been resolved, at
+        # which point a member may turn out not to be hashable (e.g. ``#{#py {}}``).
+        raise ctx.syntax_error(f"Set members and map keys must be hashable: {e}") from e
 
 
 def _should_splice_reader_conditional(ctx: ReaderContext, form: LispReaderForm) -> bool:
